@@ -4402,8 +4402,14 @@ def find_tuplets(part):
                             total_dur // normal_notes, note_tuplet[0].start.quarter
                         )
 
-                        if dur_type and dur_type.get("dots", 0) == 0:
-                            # recognized duration without dots
+                        if (
+                            dur_type
+                            and dur_type.get("dots", 0) == 0
+                            and "actual_notes" not in dur_type
+                        ):
+                            # recognized duration without dots (the estimate of a value
+                            # that is not in the table is a guessed tuplet, which has no
+                            # "dots" entry either: its type does not denote total_dur / 2)
                             dur_type["actual_notes"] = actual_notes
                             dur_type["normal_notes"] = normal_notes
                             for note in note_tuplet:
